@@ -225,10 +225,23 @@ func (c *checkSchema) ensureShortcutKeysAreValid(node *ischema.ObjectNode) error
 }
 
 func actualRootType(s, root *ischema.ISchema) json.Type {
+	return actualRootTypeOf(s, root, map[*ischema.ISchema]struct{}{})
+}
+
+// actualRootTypeOf follows references (@aaa, @aaa | @bbb) to find the JSON type
+// of the value. visited holds the schemas on the current path: a type that
+// refers back to itself has no determinable type (and must not recurse forever).
+func actualRootTypeOf(s, root *ischema.ISchema, visited map[*ischema.ISchema]struct{}) json.Type {
 	t := s.RootNode().Type()
 	if t != json.TypeMixed {
 		return t
 	}
+
+	if _, ok := visited[s]; ok {
+		return json.TypeMixed
+	}
+	visited[s] = struct{}{}
+	defer delete(visited, s)
 
 	// mixed type for example: @aaa | @bbb
 	if n, ok := s.RootNode().(*ischema.MixedValueNode); ok {
@@ -239,7 +252,7 @@ func actualRootType(s, root *ischema.ISchema) json.Type {
 			if err != nil {
 				return json.TypeMixed
 			}
-			tt = actualRootType(ss, root)
+			tt = actualRootTypeOf(ss, root, visited)
 			types[tt] = struct{}{}
 		}
 		if len(types) == 1 { // all USER TYPES (example: @aaa | @bbb) have the same type (example: string)
